@@ -1089,6 +1089,15 @@ class Exec:
             c = self.icmp(pred, args[0], args[1], bits)
             if isinstance(c, int): return args[0] if c else args[1]
             return self.ite(self.as_bool(c), args[0], args[1], ins['ty'])
+        if name.startswith(('llvm.usub.sat', 'llvm.uadd.sat')):
+            bits = ins['ty'].bits; a, b = args[0], args[1]
+            if name.startswith('llvm.usub.sat'):
+                c = self.icmp('ugt', a, b, bits); d = self.ibin('sub', a, b, bits)
+                if isinstance(c, int): return d if c else 0
+                return self.ite(self.as_bool(c), d, 0 if isinstance(d, int) else z3.BitVecVal(0, bits), ins['ty'])
+            d = self.ibin('add', a, b, bits); c = self.icmp('ult', d, a, bits)       # wrapped around
+            if isinstance(c, int): return MASK(bits) if c else d
+            return self.ite(self.as_bool(c), z3.BitVecVal(MASK(bits), bits), d, ins['ty'])
         if name.startswith('llvm.abs.'):
             bits = ins['ty'].bits; v = args[0]
             if isinstance(v, int): return abs(sgn(v, bits)) & MASK(bits)
